@@ -435,10 +435,11 @@ def findByMid (rs : List Res) (c mid : Nat) : Option (Nat × Nat) :=
     else findByMid rest c mid
 
 def handleRst (st : State) (c mid : Nat) : State :=
-  let st0 := conDec (rxSession st c) c          -- `if (session->con_active) session->con_active--` — unconditional
+  let st0 := rxSession st c
+  -- since fix 040adf3: the message is looked up first; `con_active--` only when it was found (as in the ACK branch)
   match st0.sendq.find? (matchQ c mid) with
   | some q =>
-    let st1 := { st0 with sendq := st0.sendq.eraseP (matchQ c mid) }
+    let st1 := conDec { st0 with sendq := st0.sendq.eraseP (matchQ c mid) } c
     refDec (cancelSent st1 c q.token) c
   | none =>
     match findByMid st0.res c mid with
